@@ -1,6 +1,7 @@
 import RgVerif.Lemmas.LineBufferFill
 import RgVerif.Lemmas.ReadByLineTop
 import RgVerif.Lemmas.ReadByLineGTop
+import RgVerif.Lemmas.ReadByLineCTop
 /-
 C02 — results do not depend on how the input bytes reach the searcher.
 Property theorems about the roll buffer (`line_buffer.rs`): for EVERY capacity (0 included), every
@@ -105,25 +106,47 @@ theorem roll_preserves (s : LB) (hp : s.pos ≤ s.buf.length) :
 
 /-! ### end to end: the reader strategy against the slice strategy -/
 
-/-- **C02 at full strength** (slow path of `Core`, where no contract on the matcher is needed):
-for every configuration with binary detection off, every matcher, every sink script (continue /
-stop / error at any callback), every input, every read script (fragmentation, `Interrupted`),
-every initial capacity, `search_reader` delivers the event stream of `search_slice`.
-Believed true (0 disagreements of the two models on every run of the harness); proved for every
-configuration WITHOUT context lines (`C02_partial`: any sink script, `stop_on_nonmatch`, passthru,
-inversion, line numbers, terminators). NOT proved: configurations with `-A`, `-B`, `-C` context — what is
-missing is the relation `last_line_visited_reader + abs = max last_line_visited_slice abs` of
-DESIGN §4.2 across a roll that retains context and the lemma that `is_gap`, the before-context
-lower bound and the lazy after-context start have the same outcome under it. The fast path
-additionally needs the matcher contract (`LineSafe`) and is false as stated when the sink stops
-the search (finding F10b). -/
-def C02_full : Prop :=
-  ∀ (cfg : Searcher.Config) (m : MatcherI) (σ : Script) (inp : Bytes) (script : List Step) (cap : Option Nat),
-    cfg.binary = .none → cfg.multiLine = false →
-    isLineByLineFast cfg m (Core.new cfg true) = false → NoZero script →
-    (searchReader cfg m σ none cap ⟨inp, script, 0⟩).events = (searchSlice cfg m σ inp).events
+/-- **C02 on the slow path of `Core`, EVERY configuration with binary detection off** — with or
+without context lines (`-A`, `-B`, `-C`, passthru), inversion, `stop_on_nonmatch`, line numbers on or
+off, any terminator — for EVERY matcher (no contract needed on this path), every sink script
+(continue / stop / error at any callback), every input, every read script (1-byte reads,
+`Interrupted`, the decoder's BOM peek) and every initial capacity: `ReadByLine::run` makes exactly
+the callbacks of `SliceByLine::run` (lines, context lines and context breaks, line numbers,
+absolute offsets, the final byte count also after an early stop) and returns the same `Ok` / `Err`.
+With context lines `Core::roll` keeps `max_context + 1` whole lines (or everything since
+`last_line_visited`) and FORGETS `last_line_visited`; the proof (`Lemmas/CoreShift*.lean`,
+`CoreFar`, `ReadByLineC*.lean`) relates the reader's core on each window to the slice searcher's
+core on the whole input, position by position, and shows that the gap test, the before-context
+start and the after-context counter come out the same once the forgotten value lies at least
+`max_context + 1` whole lines back. -/
+theorem C02 (cfg : Searcher.Config) (m : MatcherI) (σ : Script) (hbin : cfg.binary = .none)
+    (hslow : isLineByLineFast cfg m (Core.new cfg true) = false)
+    (lbcfg : LineBuffer.Config) (hlt : lbcfg.lineterm = cfg.lineTerm.asByte) (hb : lbcfg.binary = .none)
+    (hal : lbcfg.alloc = .eager) (rdr : Reader) (hz : NoZero rdr.script) :
+    (readByLine cfg m σ lbcfg rdr).events = (sliceByLine cfg m σ rdr.data).events ∧
+      (readByLine cfg m σ lbcfg rdr).result = (sliceByLine cfg m σ rdr.data).result :=
+  readByLine_eq_sliceByLine_all m σ hbin hslow lbcfg hlt hb hal rdr hz
 
-/-- **C02, proved part**: for every configuration without context lines (`-A`, `-B`, `-C` = 0;
+/-- **C02 at full strength, through the strategy selection** (slow path of `Core`): for every
+configuration with binary detection off, every matcher, every sink script, every input, every read
+script obeying the `Read` contract, every `verif_buffer_capacity`, `search_reader` (pass-through
+decoder with its BOM peek, roll buffer built by `Config::line_buffer`) delivers the event stream of
+`search_slice`. (The fast path additionally needs the matcher contract `LineSafe` and is false as
+stated when the sink stops the search: finding F10b.) -/
+theorem C02_full (cfg : Searcher.Config) (m : MatcherI) (σ : Script) (inp : Bytes) (script : List Step)
+    (cap : Option Nat) (hbin : cfg.binary = .none) (hml : cfg.multiLine = false)
+    (hslow : isLineByLineFast cfg m (Core.new cfg true) = false) (hz : NoZero script) :
+    (searchReader cfg m σ none cap ⟨inp, script, 0⟩).events = (searchSlice cfg m σ inp).events := by
+  have hmm : multiLineWithMatcher cfg m = false := by simp [multiLineWithMatcher, hml]
+  unfold searchReader searchSlice
+  simp only [hmm, Bool.false_eq_true, if_false]
+  have := C02 cfg m σ hbin hslow (lineBufferConfig cfg none cap) rfl
+    (by simp [lineBufferConfig, hbin, BinaryDetection.toLB]) (by simp [lineBufferConfig])
+    (⟨inp, script, 0⟩ : Reader).withBomPeek (withBomPeek_noZero _ hz)
+  exact this.1
+
+/-- **C02 without context lines** (the closed-form route, kept: it also gives the event stream as
+a function of the lines, `specRun`): for every configuration without context lines (`-A`, `-B`, `-C` = 0;
 passthru, inversion, `stop_on_nonmatch`, line numbers on/off, any terminator), on the slow path,
 detection off, eager allocation — for EVERY sink script (continue / stop / error at any
 callback), input, read script (1-byte reads, `Interrupted`, the decoder's BOM peek) and initial
@@ -161,6 +184,21 @@ theorem C02_multiline_downgrade (cfg : Searcher.Config) (m : MatcherI) (h : NoCt
     (searchSlice { cfg with multiLine := true } m allCont inp).events
       = (searchSlice { cfg with multiLine := false } m allCont inp).events :=
   searchSlice_ml_downgrade m h hslow hdown inp
+
+/-- Non-vacuity of `C02` WITH context lines (`-B1 -A1`): capacity 1, 1-byte reads with an
+interrupted one; the reader rolls many times, keeps two lines of context at each roll, and makes
+the same callbacks as the slice searcher — before/after context, the context break, line numbers. -/
+example :
+    let cfg : Searcher.Config := { beforeContext := 1, afterContext := 1 }
+    let m : MatcherI := MatcherI.ofFindAt (fun h at_ =>
+      ((h.drop at_).findIdx? (· == 120)).map fun i => ⟨at_ + i, at_ + i + 1⟩)
+    cfg.binary = .none ∧ isLineByLineFast cfg m (Core.new cfg true) = false ∧
+      (readByLine cfg m allCont ⟨1, 10, .eager, .none⟩
+        ⟨[97, 10, 98, 10, 99, 10, 120, 10, 100, 10, 101, 10, 102, 10, 120, 10], [.ret 1, .intr, .ret 1], 0⟩).events
+        = [.begin, .context .before (some 3) 4 [99, 10], .matched (some 4) 6 [120, 10],
+           .context .after (some 5) 8 [100, 10], .contextBreak, .context .before (some 7) 12 [102, 10],
+           .matched (some 8) 14 [120, 10], .finish 16 none] := by
+  refine ⟨rfl, by decide, by decide⟩
 
 /-- Non-vacuity of `C02_partial`: passthru, NUL-free text with LF inside... a capacity-1 buffer,
 1-byte reads with an interrupted one, a matcher that selects lines containing `x`: the guard holds
